@@ -46,37 +46,41 @@ def PCtx.toDate (c : PCtx) : Bytes := Time.formatDate (Int.fdiv c.toNs 100000000
 /-- the two date bounds every index scan of these planners starts with -/
 def dateConds (c : PCtx) : List Expr := [ge (.raw "date") (.str c.fromDate), le (.raw "date") (.str c.toDate)]
 
-/-- `StreamSelectorPlanner.Process` -/
-def selectorSel (c : PCtx) (globals kvs : List PCond) : Sel :=
+/-- `StreamSelectorPlanner.Process` for the request `q` = what `getMatchers` makes of the selector list (`Prof.plan`, C17:
+    `globals`, `kvs`, and the `kvRequired` mask — a key/value selector that accepts the empty value is in `kvs` INVERTED with
+    its bit clear). Table and dates are the planner context's (`plan`'s own `table/fromDate/toDate` fields are not read).
+    The `or(kvMatchers…)` row filter only `if matchers.kvRequired != 0` (`q.useOr`); `HAVING groupBitOr(…) == kvRequired`. -/
+def selectorSel (c : PCtx) (q : PQuery) : Sel :=
   .mk [] false [.raw "fingerprint"] (some (.raw c.ginTable)) [] none
     (some (and_ (dateConds c ++
-      (if globals.isEmpty then [] else [and_ (globals.map condExpr)]) ++
-      (if kvs.isEmpty then [] else [or_ (kvs.map condExpr)]))))
+      (if q.globals.isEmpty then [] else [and_ (q.globals.map condExpr)]) ++
+      (if q.kvs.isEmpty || !q.useOr then [] else [or_ (q.kvs.map condExpr)]))))
     [.raw "fingerprint"]
-    (if kvs.isEmpty then none else some (and_ [eq (.bitSetAnd (kvs.map condExpr)) (.int (havingConst kvs.length))]))
+    (if q.kvs.isEmpty then none
+     else some (and_ [eq (.bitSetAnd (q.kvs.map condExpr)) (.int (Bits.requiredConst q.kvRequired))]))
     [] none
 
 /-- `ORDER BY timestamp_ns desc LIMIT n` when the context has a limit -/
 def limited (c : PCtx) (s : Sel) : Sel :=
   if c.limit != 0 then (s.setOrderBy [.orderBy (.raw "timestamp_ns") .desc]).setLimit (some (.int c.limit)) else s
 
-/-- `MergeProfilesPlanner.Process`: `fp*` the selector the fingerprint planner was given, `globals` the global matchers of
-    the planner's own selector list -/
-def mergeProfiles (c : PCtx) (fpG fpK globals : List PCond) : Sel :=
+/-- `MergeProfilesPlanner.Process`: `fp` the request of the selector list the fingerprint planner was given, `globals` the
+    global matchers of the planner's own selector list -/
+def mergeProfiles (c : PCtx) (fp : PQuery) (globals : List PCond) : Sel :=
   (limited c (Sel.mk [] false [.raw "payload"] (some (.raw c.profilesDistTable)) [] none
     (some (and_ ([ge (.raw "timestamp_ns") (.int c.fromNs), le (.raw "timestamp_ns") (.int c.toNs),
                   .isIn (.raw "fingerprint") [.withRef (.named "fp")]] ++ globals.map condExpr)))
-    [] none [] none)).with_ [(.named "fp", selectorSel c fpG fpK)]
+    [] none [] none)).with_ [(.named "fp", selectorSel c fp)]
 
 /-- `MergeRawPlanner.Process` (`typeUnit` = sampleType ++ ":" ++ sampleUnit; the global matchers as ONE nested `and`) -/
-def mergeRaw (c : PCtx) (typeUnit : Bytes) (fpG fpK globals : List PCond) : Sel :=
+def mergeRaw (c : PCtx) (typeUnit : Bytes) (fp : PQuery) (globals : List PCond) : Sel :=
   (limited c (Sel.mk [] false
     [.col (.raw ("arrayMap(x -> (x.1, x.2, x.3, (arrayFirst(y -> y.1 == " ++ utf8 (quote typeUnit) ++ ", x.4) as af).2, af.3), tree)")) "tree",
      .raw "functions"]
     (some (.raw c.profilesDistTable)) [] none
     (some (and_ [ge (.raw "timestamp_ns") (.int c.fromNs), lt (.raw "timestamp_ns") (.int c.toNs),
                  .isIn (.raw "fingerprint") [.withRef (.named "fp")], and_ (globals.map condExpr)]))
-    [] none [] none)).with_ [(.named "fp", selectorSel c fpG fpK)]
+    [] none [] none)).with_ [(.named "fp", selectorSel c fp)]
 
 /-- `MergeJoinedPlanner.Process` over `raw` -/
 def mergeJoined (raw : Sel) : Sel :=
@@ -93,22 +97,22 @@ def mergeAggregated (joined : Sel) : Sel :=
     none [] none none [] none [] none).with_ [(.named "joined", joined)]
 
 /-- `PlanMergeTraces` -/
-def mergeTraces (c : PCtx) (typeUnit : Bytes) (fpG fpK globals : List PCond) : Sel :=
-  mergeAggregated (mergeJoined (mergeRaw c typeUnit fpG fpK globals))
+def mergeTraces (c : PCtx) (typeUnit : Bytes) (fp : PQuery) (globals : List PCond) : Sel :=
+  mergeAggregated (mergeJoined (mergeRaw c typeUnit fp globals))
 
 /-- `arrayFilter(x -> x.1 IN ('a','b'), <arr>)` (GetLabelsPlanner with GroupBy, FilterLabelsPlanner) -/
 def arrayFilterIn (names : List Bytes) (arr : String) : Expr :=
   .raw ("arrayFilter(x -> " ++ utf8 (renderExpr (.isIn (.raw "x.1") (names.map .str))) ++ ", " ++ arr ++ ")")
 
 /-- `GetLabelsPlanner.Process` -/
-def getLabels (c : PCtx) (groupBy : List Bytes) (fpG fpK globals : List PCond) : Sel :=
+def getLabels (c : PCtx) (groupBy : List Bytes) (fp : PQuery) (globals : List PCond) : Sel :=
   (Sel.mk [] true
     [.raw "fingerprint",
      (if groupBy.isEmpty then simpleCol "arraySort(p.tags)" "tags" else .col (arrayFilterIn groupBy "p.tags") "tags"),
      (if groupBy.isEmpty then simpleCol "fingerprint" "new_fingerprint" else simpleCol "cityHash64(tags)" "new_fingerprint")]
     (some (.col (.raw c.seriesTable) "p")) [] none
     (some (and_ ([.isIn (.raw "fingerprint") [.withRef (.named "fp")]] ++ dateConds c ++ globals.map condExpr)))
-    [] none [] none).with_ [(.named "fp", selectorSel c fpG fpK)]
+    [] none [] none).with_ [(.named "fp", selectorSel c fp)]
 
 /-- the value column of `SelectSeriesPlanner` -/
 def seriesValueCol (typeUnit : Bytes) (avg : Bool) : Expr :=
@@ -140,10 +144,10 @@ def allTimeSeries (c : PCtx) : Sel :=
   .mk [] true seriesCols (some (seriesFrom c)) [] none (some (and_ (dateConds c))) [] none [] none
 
 /-- `TimeSeriesSelectPlanner.Process` (Series, one selector set) -/
-def timeSeriesSelect (c : PCtx) (fpG fpK globals : List PCond) : Sel :=
+def timeSeriesSelect (c : PCtx) (fp : PQuery) (globals : List PCond) : Sel :=
   (Sel.mk [] true seriesCols (some (seriesFrom c)) [] none
     (some (and_ ([.isIn (.raw "p.fingerprint") [.withRef (.named "fp")]] ++ dateConds c ++ globals.map condExpr)))
-    [] none [] none).with_ [(.named "fp", selectorSel c fpG fpK)]
+    [] none [] none).with_ [(.named "fp", selectorSel c fp)]
 
 /-- `FilterLabelsPlanner.Process` over `main` (label names given) -/
 def filterLabels (labels : List Bytes) (main : Sel) : Sel :=
@@ -154,10 +158,10 @@ def filterLabels (labels : List Bytes) (main : Sel) : Sel :=
 
 /-- `PlanSeries` for one script: without any selector the label-name filter is NOT applied (early return of
     `AllTimeSeriesSelectPlanner`) -/
-def planSeries (c : PCtx) (labels : List Bytes) (sel : Option (List PCond × List PCond)) : Sel :=
+def planSeries (c : PCtx) (labels : List Bytes) (sel : Option PQuery) : Sel :=
   match sel with
   | none => allTimeSeries c
-  | some (g, k) => filterLabels labels (timeSeriesSelect c g k g)
+  | some q => filterLabels labels (timeSeriesSelect c q q.globals)
 
 /-- `GenericLabelsPlanner._process` without a fingerprint request (`len(scripts) == 0`): LabelNames (`key`), and
     LabelValues (`val`, plus `key == label`) -/
@@ -185,7 +189,7 @@ def profileSize (main : Sel) : Sel :=
     none [] none none [] none [] none).with_ [(.named "pre_profile_size", main)]
 
 /-- `PlanAnalyzeQuery` (no type-id selectors: one selector list for both planners) -/
-def analyzeQuery (c : PCtx) (globals kvs : List PCond) : Sel := profileSize (mergeProfiles c globals kvs globals)
+def analyzeQuery (c : PCtx) (q : PQuery) : Sel := profileSize (mergeProfiles c q q.globals)
 
 /-- a statement whose one WITH entry is `(s₀) UNION ALL (s₁) …` (`UnionAllPlanner` → `unionAll.String`): the shared `Sel`
     has no place for a union as a WITH query, so the operands are kept beside the main select and `render` writes them
@@ -205,8 +209,8 @@ def UnionStmt.render (u : UnionStmt) : Bytes :=
   renderSelBody u.main
 
 /-- LabelNames / LabelValues with selector sets (`len(scripts) > 0`): `fp` = the union of their selector statements -/
-def labelsUnion (c : PCtx) (col : String) (label : Option Bytes) (scripts : List (List PCond × List PCond)) : UnionStmt :=
-  { alias := "fp", ops := scripts.map (fun p => selectorSel c p.1 p.2), main := labelsSel c col label true }
+def labelsUnion (c : PCtx) (col : String) (label : Option Bytes) (scripts : List PQuery) : UnionStmt :=
+  { alias := "fp", ops := scripts.map (selectorSel c), main := labelsSel c col label true }
 
 /-- the select `TimeSeriesDistinctPlanner` puts over the union -/
 def preDistinctSel : Sel :=
@@ -217,11 +221,11 @@ def preDistinctSel : Sel :=
     set — rendered without their own WITH lists; the only `fp` entry is the one hoisted from the FIRST operand, so every
     operand's `p.fingerprint IN fp` refers to the first set's fingerprints (as the code is; see notes/C13.md) — under a
     DISTINCT select, and `FilterLabelsPlanner` around it when label names are given -/
-def seriesUnion (c : PCtx) (labels : List Bytes) (scripts : List (List PCond × List PCond)) : UnionStmt :=
+def seriesUnion (c : PCtx) (labels : List Bytes) (scripts : List PQuery) : UnionStmt :=
   let fp : List (Alias × Sel) := match scripts with
     | [] => []
-    | p :: _ => [(.named "fp", selectorSel c p.1 p.2)]
-  let ops := scripts.map (fun p => timeSeriesSelect c p.1 p.2 p.1)
+    | p :: _ => [(.named "fp", selectorSel c p)]
+  let ops := scripts.map (fun p => timeSeriesSelect c p p.globals)
   if labels.isEmpty then { pre := fp, alias := "pre_distinct", ops := ops, main := preDistinctSel }
   else { pre := fp, alias := "pre_distinct", ops := ops, post := [(.named "pre_label_filter", preDistinctSel)],
          main := .mk [] false [.col (arrayFilterIn labels "tags") "tags", simpleCol "type_id" "type_id",
